@@ -60,6 +60,7 @@ void mix_hash(uint64_t v);                              // add to the event-log 
 
 // explicit scheduling point (harness tasks, H1 hooks)
 void sched_point(const char* name);
+void name_thread(const char* role);                     // role name of the calling thread (used in signatures)
 int  current_thread();                                  // simulated thread id (0 = main)
 uint64_t event_seq();                                   // global event sequence number (monotone)
 uint64_t steps();
